@@ -49,3 +49,24 @@ Theorem c06_every_accepted_file : forall bs z h1 h2 cs1 cs2,
 Proof. exact accepted_c06_convert_mono_lemma. Qed.
 Print Assumptions c06_every_accepted_file.
 
+
+From CCTZ Require Import ZoneSpec WholeDomain C01Whole.
+From CCTZ Require C02Whole.
+(* END TO END against the TZif specification: convert(cs) is, clamped to the time_point range, the EARLIEST instant (of Z)
+   at which the zone the file describes shows cs or a later civil second - for every civil second, across gaps and
+   overlaps, across the recorded/generated seam, in years reached through the 400-year shift and at the saturated
+   ends; hence convert is monotone over the WHOLE civil line (no condition on the years). *)
+Definition spec_earliest (a : ast) (cs : fields) (c : Z) : Prop :=
+  (exists o, off_at (szone_of a) c = Some o /\ c + o >= sec_of cs) /\
+  (forall t o, t < c -> off_at (szone_of a) t = Some o -> t + o < sec_of cs).
+Theorem c06_whole : forall bs h a,
+  parse_ast bs = Some (h, a) -> wf_ast h a = true -> c01_domain h a = true ->
+  footer_below_day a = true -> table_gaps_ok a = true ->
+  exists z, load_bytes bs = OK (Some z) /\
+    (forall hint cs, valid_fields cs = true -> int64 (fy cs) ->
+       exists c, convert_cs z hint cs = OK (clamp64z c) /\ spec_earliest a cs c) /\
+    (forall h1 h2 cs1 cs2, valid_fields cs1 = true -> valid_fields cs2 = true ->
+       int64 (fy cs1) -> int64 (fy cs2) -> sec_of cs1 <= sec_of cs2 ->
+       exists x y, convert_cs z h1 cs1 = OK x /\ convert_cs z h2 cs2 = OK y /\ x <= y).
+Proof. exact C02Whole.c06_whole_ast. Qed.
+Print Assumptions c06_whole.
